@@ -324,15 +324,20 @@ class Cluster:
         # Locking is not required for this function.
         assert self._config.is_complete
         self._config.is_complete = False
-        self._config.submitted_jobs = self._config.num_jobs - len(jobs_to_resubmit)
+        # Count from the job table: a job that is not resubmitted may never have been submitted
+        # (e.g., --no-missing after a canceled or partially failed submission).
+        self._config.submitted_jobs = 0
         self._config.completed_jobs = 0
 
         for job in self.iter_jobs():
             if job.name in jobs_to_resubmit:
                 job.state = JobState.NOT_SUBMITTED
                 job.blocked_by = updated_blocking_jobs_by_name.get(job.name, set())
-            elif job.state == JobState.DONE:
-                self._config.completed_jobs += 1
+            else:
+                if job.state != JobState.NOT_SUBMITTED:
+                    self._config.submitted_jobs += 1
+                if job.state == JobState.DONE:
+                    self._config.completed_jobs += 1
 
         self._check_config_version("prepare_for_resubmission")
         self._check_job_status_version("prepare_for_resubmission")
